@@ -267,8 +267,15 @@ func hbSystem(t *testing.T, h *H) {
 		trs := [][]string{{"polling"}, {"websocket"}, {"polling", "websocket"}}[(i/3)%3]
 		t0 := time.Duration(h.R.Intn(int(3*(I+T)/(100*time.Millisecond)))) * 100 * time.Millisecond
 		if len(trs) == 2 && i%2 == 0 {
-			t0 = time.Duration(h.R.Intn(200)) * time.Millisecond // during the upgrade
+			// during the upgrade - but after the handshake (which takes no virtual time): a handshake request that goes into the hole never
+			// returns (no HTTP timeout), its goroutine keeps the manager's eioMu, and the scenario's own Close then queues on that mutex,
+			// which stops the bubble's clock (not a heartbeat matter: C14 is about established connections)
+			t0 = time.Duration(1+h.R.Intn(200)) * time.Millisecond
 		}
+		if t0 == 0 {
+			t0 = time.Millisecond // never before the handshake is through (see above)
+		}
+		progress("hbSystem #%d I=%v T=%v transports=%v blackhole=%s at %v", i, I, T, trs, d.name, t0)
 		live := i%6 == 5 || i%6 == 2 // no fault at all: 50 idle periods
 		// every other live scenario that upgrades has a slow uplink on the WebSocket: the upgrade takes about three latencies and
 		// the first ping falls due between the probe's answer and the arrival of the UPGRADE packet
@@ -287,7 +294,11 @@ func hbSystem(t *testing.T, h *H) {
 			over                 bool // the observation window is over: later events are the harness' own tear-down
 		)
 		synctest.Test(t, func(t *testing.T) {
-			r := newRig(&sio.ServerConfig{EIO: eio.ServerConfig{PingInterval: I, PingTimeout: T, UpgradeTimeout: 10 * time.Second}})
+			upTO := time.Duration(0) // default
+			if slowWS > 0 {
+				upTO = 10 * time.Second
+			}
+			r := newRig(&sio.ServerConfig{EIO: eio.ServerConfig{PingInterval: I, PingTimeout: T, UpgradeTimeout: upTO}})
 			r.net.wsLatency = slowWS
 			start := time.Now()
 			r.server.OnConnection(func(s sio.ServerSocket) {
@@ -300,7 +311,7 @@ func hbSystem(t *testing.T, h *H) {
 				})
 				s.OnEvent("tick", func(int) { mu.Lock(); traffic++; mu.Unlock() })
 			})
-			m := r.manager(trs, &sio.ManagerConfig{NoReconnection: true, EIO: eio.ClientConfig{UpgradeTimeout: 10 * time.Second}})
+			m := r.manager(trs, &sio.ManagerConfig{NoReconnection: true, EIO: eio.ClientConfig{UpgradeTimeout: upTO}})
 			c := m.Socket("/", nil)
 			c.OnDisconnect(func(reason sio.Reason) {
 				mu.Lock()
